@@ -22,6 +22,7 @@ from .values import (
     to_boolean,
     to_number,
     to_string,
+    join_array,
     js_typeof,
     js_pow,
     norm_number,
@@ -1309,21 +1310,15 @@ class VM:
                 arr._elements.insert(i, arg)
             return arr.length
 
-        def array_elem_to_string(elem):
-            # undefined and null convert to empty string in array join/toString
-            if elem is UNDEFINED or elem is NULL:
-                return ""
-            return to_string(elem)
-
         def arg(args, i):
             return args[i] if len(args) > i else UNDEFINED
 
         def toString_fn(*args):
-            return ",".join(array_elem_to_string(elem) for elem in arr._elements)
+            return join_array(arr, ",")
 
         def join_fn(*args):
             sep = "," if arg(args, 0) is UNDEFINED else to_string(args[0])
-            return sep.join(array_elem_to_string(elem) for elem in arr._elements)
+            return join_array(arr, sep)
 
         def callback_of(args, what):
             callback = arg(args, 0)
